@@ -112,8 +112,132 @@ theorem no_new_keyword (a b : Nat) (hs : [a, b] ∈ prefixes) (f : Tok) (hf : f 
     exact Bool.false_ne_true hh
 
 
-/-- limitation, outside `exprFollowers`: in `PRINT XIB FRE(0)` the next sibling is an `fcall` node,
-not a token, so no table entry can match and `XI`+`FRE` hides `IF` (see design/C17.md) -/
+/-! ### PRINT items run together: the adjacency rule of `needs_guard` -/
+
+/-- the adjacency rule: a following non-token node with nothing in between always asks for a guard,
+whatever the table says … -/
+theorem adjacent_always_guards (txt : List Nat) : needsGuardNode txt (.node true) = true := rfl
+
+/-- … a subscript never does, and with no following node at all there is no guard -/
+theorem subscript_never_guards (txt : List Nat) :
+    needsGuardNode txt .subscript = false ∧ needsGuardNode txt .none = false := ⟨rfl, rfl⟩
+
+/-- for a following token the answer is the table's -/
+theorem token_guard_is_table (txt : List Nat) (t : Tok) : needsGuardNode txt (.tok t) = needsGuard txt t := rfl
+
+/-- what a guarded real name is written as: unchanged (up to 4 characters), or its first two
+characters in parentheses -/
+theorem guarded_text (txt : List Nat) :
+    shortText .real true txt = txt ∨
+    (4 < txt.length ∧ shortText .real true txt = [40] ++ txt.take 2 ++ [41]) := by
+  unfold shortText
+  split
+  · rename_i h; right; exact ⟨h.2.2.2, rfl⟩
+  · rename_i h
+    left
+    simp only [shortName]
+    split
+    · rename_i h2
+      have h4 : ¬ 4 < txt.length := fun h4 => h ⟨rfl, h2, rfl, h4⟩
+      simp [h4]
+    · rfl
+
+/-- finite facts about the regenerated reserved-word table: no reserved word contains `)` and none
+starts with `(` -/
+theorem spelling_no_paren :
+    (Tok.all.all fun t => !t.spelling.contains 41 && !(t.spelling.head? == some 40)) = true := by
+  decide +kernel
+
+/-- where a word that contains no `)` and does not start with `(` can sit in `"(" a b ")" ++ n`:
+inside the two characters, or entirely in `n` -/
+theorem paren_occurrence (a b : Nat) (n kw : List Nat) (i : Nat) (hk : kw ≠ [])
+    (h41 : kw.contains 41 = false) (h40 : (kw.head? == some 40) = false)
+    (h : kw.isPrefixOf (([40, a, b, 41] ++ n).drop i) = true) :
+    (0 < i ∧ i < 3 ∧ kw.isPrefixOf (([a, b] : List Nat).drop (i - 1)) = true) ∨
+    (4 ≤ i ∧ kw.isPrefixOf (n.drop (i - 4)) = true) := by
+  match i with
+  | 0 =>
+    match kw with
+    | [] => exact absurd rfl hk
+    | k0 :: r =>
+      simp [List.isPrefixOf] at h
+      simp [h.1] at h40
+  | 1 =>
+    match kw with
+    | [] => exact absurd rfl hk
+    | [k0] => left; simpa [List.isPrefixOf] using h
+    | [k0, k1] => left; simpa [List.isPrefixOf] using h
+    | k0 :: k1 :: k2 :: r =>
+      simp [List.isPrefixOf] at h
+      simp [h.2.2.1] at h41
+  | 2 =>
+    match kw with
+    | [] => exact absurd rfl hk
+    | [k0] => left; simpa [List.isPrefixOf] using h
+    | k0 :: k1 :: r =>
+      simp [List.isPrefixOf] at h
+      simp [h.2.1] at h41
+  | 3 =>
+    match kw with
+    | [] => exact absurd rfl hk
+    | k0 :: r =>
+      simp [List.isPrefixOf] at h
+      simp [h.1] at h41
+  | i + 4 =>
+    right
+    exact ⟨by omega, by simpa using h⟩
+
+/-- **No new reserved word, juxtaposed items**: a parenthesised keyword-free short name `(ab)`
+followed by anything: every reserved word occurring in the text lies entirely in what follows. -/
+theorem no_new_keyword_paren (a b : Nat) (hk : containsKeyword [a, b] = false) (n : List Nat)
+    (t : Tok) (ht : t ∈ Tok.all) (i : Nat)
+    (h : t.spelling.isPrefixOf (([40, a, b, 41] ++ n).drop i) = true) :
+    4 ≤ i ∧ t.spelling.isPrefixOf (n.drop (i - 4)) = true := by
+  have hp := spelling_no_paren
+  rw [List.all_eq_true] at hp
+  have hpt := hp t ht
+  simp only [Bool.and_eq_true, Bool.not_eq_true'] at hpt
+  rcases paren_occurrence a b n t.spelling i (spelling_ne_nil t ht) hpt.1 hpt.2 h with ⟨h0, h3, hin⟩ | h2
+  · exfalso
+    have : containsKeyword [a, b] = true := by
+      unfold containsKeyword
+      rw [List.any_eq_true]
+      refine ⟨t, ht, ?_⟩
+      rw [List.any_eq_true]
+      exact ⟨i - 1, by simp; omega, hin⟩
+    rw [hk] at this
+    exact Bool.false_ne_true this
+  · exact h2
+
+/-- the clause for a variable that ends a PRINT item which is followed, with no separator, by a
+non-token node (function call, string function, `NOT …`, string, …): `needs_guard` answers yes
+(`adjacent_always_guards`), so the name is either written unchanged, or as `(ab)` — and then every
+reserved word in `written ++ rest` lies entirely inside `rest`, where it was before.  This holds
+wherever the variable sits in the item (alone, tail of a binary or unary expression): the model
+takes the *climbed* node's adjacency, as the code does. -/
+theorem juxtaposed_item_safe (txt rest : List Nat)
+    (hk : containsKeyword (txt.take 2) = false) (t : Tok) (ht : t ∈ Tok.all) (i : Nat)
+    (h : t.spelling.isPrefixOf
+      ((shortText .real (needsGuardNode txt (.node true)) txt ++ rest).drop i) = true) :
+    shortText .real (needsGuardNode txt (.node true)) txt = txt ∨
+    (4 ≤ i ∧ t.spelling.isPrefixOf (rest.drop (i - 4)) = true) := by
+  rw [adjacent_always_guards] at h ⊢
+  rcases guarded_text txt with h1 | ⟨hlen, h2⟩
+  · exact Or.inl h1
+  · right
+    match txt, hlen with
+    | a :: b :: r, _ =>
+      rw [h2] at h
+      simp only [List.take_succ_cons, List.take_zero] at h hk
+      exact no_new_keyword_paren a b hk rest t ht i (by simpa using h)
+
+/-- the hazard the rule exists for: `COUNT` before `SIN(` would read `COSIN(`, `XIB` before `FRE(`
+would read `XIFRE(` -/
+example : hidden [67, 79] Tok.tok_sin.spelling = true ∧ hidden [88, 73] Tok.tok_fre.spelling = true := by
+  decide +kernel
+
+/-- why the table alone is not enough there: in `PRINT XIB FRE(0)` the next sibling is an `fcall`
+node, not a token, so no table entry can match, and `XI`+`FRE` hides `IF` -/
 example : hidden [88, 73] Tok.tok_fre.spelling = true := by decide +kernel
 
 
